@@ -8,6 +8,7 @@ import XV.Drv.GovToken
 import XV.Drv.Acl
 import XV.Drv.EncMain
 import XV.Drv.Sched
+import XV.Drv.Pool
 /-! line-protocol model driver: `xvdriver <engine> < ops.txt > model.out` -/
 def main (args : List String) : IO UInt32 := do
   match args with
@@ -21,4 +22,5 @@ def main (args : List String) : IO UInt32 := do
   | ["acl"] => XV.Drv.Acl.run; return 0
   | ["enc"] => XV.Drv.EncMain.run; return 0
   | ["sched"] => XV.Drv.Sched.run; return 0
+  | ["pool"] => XV.Drv.Pool.run; return 0
   | _ => IO.eprintln "usage: xvdriver <engine>"; return 2
